@@ -9,6 +9,7 @@
 //! (correspondence).  Findings go to the report file; the verdict is taken by
 //! tools/check.py.
 
+mod codec;
 mod common;
 mod credit;
 mod frame;
@@ -17,6 +18,9 @@ mod recvcredit;
 mod session;
 
 use common::Opts;
+
+#[global_allocator]
+static GLOBAL: codec::CountingAlloc = codec::CountingAlloc;
 
 fn main() {
     let args: Vec<String> = std::env::args().collect();
@@ -62,6 +66,7 @@ fn main() {
     }
     match args[1].as_str() {
         "session" => session::main(&opts),
+        "codec" => codec::main(&opts),
         "credit" => credit::main(&opts),
         "frame" => frame::main(&opts),
         "recvcredit" => recvcredit::main(&opts),
